@@ -217,13 +217,16 @@ def run(ctx):
 
     # ---- graph-level action: get_neighbors_decoded / apply_path, encoded and un-encoded, permutation and matrix ----
     gcases, gmetas = [], []
-    for _ in range(ctx.budget(60, 500)):
-        gd = G.gen_graph(rng, cap=300)
+    for gi_ in range(ctx.budget(60, 500)):
+        gd = G.gen_matrix_graph(rng, 300) if gi_ % 3 == 2 else G.gen_graph(rng, cap=300)
         layers, dist = G.ref_bfs(gd, [gd["central"]])
         cfgd = G.gen_config(rng, gd)
         graph = G.make_graph(gd, cfgd)
         verts = sorted(dist)
         sts = [list(rng.choice(verts)) for _ in range(rng.randint(1, 4))]
+        if rng.random() < 0.4:
+            # more states in one call than the graph's batch size, and not a multiple of it
+            sts = [list(rng.choice(verts)) for _ in range(cfgd["batch_size"] * rng.randint(1, 3) + rng.randint(1, 2) if cfgd["batch_size"] <= 7 else rng.randint(5, 11))]
         nb = G.flat_states(graph.get_neighbors_decoded(torch.tensor(sts, dtype=torch.int64)))
         k = G.n_gens(gd)
         want = [list(G.act(gd, i, tuple(s))) for i in range(k) for s in sts]
